@@ -101,7 +101,13 @@ func pairGraph() parsley.Parser {
 	var a, b parser.Func
 	a = combinator.Memoize(combinator.Any(combinator.SeqOf(&b, terminal.Rune('a')).Bind(concatInterp), terminal.Rune('a')))
 	b = combinator.Memoize(combinator.Any(combinator.SeqOf(&a, terminal.Rune('b')).Bind(concatInterp), terminal.Rune('b')))
-	return combinator.Sentence(&a)
+	// the inner nonterminal is looked up again at the same position after the outer one
+	// has returned (A ... '!' | B '?' | A)
+	return combinator.Sentence(combinator.Any(
+		combinator.SeqOf(&a, terminal.Rune('!')).Bind(concatInterp),
+		combinator.SeqOf(&b, terminal.Rune('?')).Bind(concatInterp),
+		&a,
+	))
 }
 
 // tokens: every literal terminal behind named alternatives and all trim modes - the
@@ -283,6 +289,7 @@ func (s *GraphSpec) genInput(r *Rand) string {
 		for i := 0; i < n; i++ {
 			in += string("ab"[r.Intn(2)])
 		}
+		in += []string{"", "", "!", "?"}[r.Intn(4)]
 	case "tokens":
 		toks := []string{"1", "2.5", `"s"`, "'c'", "true", "false", "nil", "1h2m", "\nlet", "==", "foo_bar", "+", "-", "0x1f", "`raw`", "#"}
 		n := r.Range(0, 6)
